@@ -50,7 +50,7 @@ pub struct PSource {
 	pub src: Source,
 }
 
-pub fn psource_of(s: &Value, k: usize) -> PSource {
+pub fn psource_of(s: &Value, k: usize, allow_empty: bool) -> PSource {
 	let tc = s["tc"].as_str().unwrap().to_string();
 	// small payloads unless the case says otherwise (size 30..69 bytes, distinct content per id)
 	let mut classes = s.get("classes").cloned().unwrap_or(json!({}));
@@ -58,7 +58,12 @@ pub fn psource_of(s: &Value, k: usize) -> PSource {
 		let mut m = serde_json::Map::new();
 		for t in s["tiles"].as_array().unwrap() {
 			let p = t[3].as_u64().unwrap();
-			m.insert(p.to_string(), json!([30 + p % 40, 1]));
+			// payload 103 (the third tile of the FIRST source) is the EMPTY payload: a tile of zero bytes is a tile
+			if p == 103 && allow_empty {
+				m.insert(p.to_string(), json!([0, 4]));
+			} else {
+				m.insert(p.to_string(), json!([30 + p % 40, 1]));
+			}
 		}
 		classes = Value::Object(m);
 	}
@@ -75,7 +80,9 @@ pub fn psource_of(s: &Value, k: usize) -> PSource {
 }
 
 fn pipe_case(rt: &tokio::runtime::Runtime, dir: &Path, case: &Value, n: usize) -> Value {
-	let sources: Vec<PSource> = case["sources"].as_array().unwrap().iter().enumerate().map(|(k, s)| psource_of(s, k + 1)).collect();
+	// (real container files as sources: versatiles / PMTiles cannot hold a zero-byte tile, so no empty payload there)
+	let allow_empty = case.get("files").and_then(|f| f.as_str()).is_none();
+	let sources: Vec<PSource> = case["sources"].as_array().unwrap().iter().enumerate().map(|(k, s)| psource_of(s, k + 1, allow_empty)).collect();
 	let tree = &case["tree"];
 	let vpl = render(tree);
 	let use_files = case.get("files").and_then(|f| f.as_str()).map(|s| s.to_string());
